@@ -252,6 +252,26 @@ def run(ck, F, E):
         ck.require(not others, "C17:TRACE:no-other-site", "trace placement", "no other Trace construction",
                    "Trace records are also created in %s" % others)
 
+    # every token execution passes is first seen by evaluate_statement (which traces, then dispatches): the stepper itself moves
+    # the cursor past nothing before handing over -- a stepper that skips `:` separators on its own never enters a statement
+    # on a line that consists of separators, or that a RETURN / NEXT re-enters at a trailing `:`, and the line is missing
+    # from the trace
+    rn = get_fn(ck, F, "Interpreter::run_next_statement")
+    if rn is not None:
+        evs = [c for c in rn.calls() if c.callee.endswith("StatementEvaluator::evaluate_statement")]
+        if len(evs) == 1:
+            before = {b for b in rn.reachable() if b != evs[0].bb and rn.reaches(b, evs[0].bb)}
+            eff = region_effects(E, rn, before)
+            moved = sorted({p[1][1] if len(p) > 1 else "?" for (k, p) in eff if p and p[0][1] == "program"} |
+                           {"?" for (k, p) in eff if k == "?"})
+            ck.require(not moved, "C17:TRACE:stepper-consumes-nothing", "trace placement",
+                       "run_next_statement writes nothing of the program (cursor included) before it calls evaluate_statement",
+                       "run_next_statement modifies Program.%s before handing over to evaluate_statement: tokens are consumed "
+                       "without a statement being entered, so a numbered line execution passes through can be missing from the "
+                       "trace" % ",".join(moved), evs[0].span)
+        else:
+            ck.missing("C17:TRACE:stepper-consumes-nothing", "the single evaluate_statement call of run_next_statement")
+
     # ---- warn before implicit creation
     n_sites = 0
     for fn in ("Arrays::get_value_at_index", "Arrays::set_value_at_index"):
